@@ -40,6 +40,15 @@ ATOMS = [
     ('uA', 'ampere * 1e-6', _v({-4: 1}, -6, 0, -6)),
     ('minute', 'second * 60', _v({-3: 1}, 2, 1, 1)),
     ('kV', 'volt * 1000', _v(VOLT, 3, 0, 3)),
+    # pint's radian is a base unit WITHOUT a dimension (generator -8); user units based on it.  The multipliers of deg
+    # and turn are not products of small primes: 0.0174532925 = 6981317 * 2**-10 * 5**-8, 6.283185307 = 6283185307 *
+    # 10**-9; the two big integers serve as scale generators of their own (multiplicatively independent of 2, 3, 5
+    # and of each other)
+    ('radian', None, {-8: 1}),
+    ('mrad', 'radian * 0.001', _v({-8: 1}, -3, 0, -3)),
+    ('deg', 'radian * 0.0174532925', {**_v({-8: 1}, -10, 0, -8), 6981317: 1}),
+    ('turn', 'radian * 6.283185307', {**_v({-8: 1}, -9, 0, -9), 6283185307: 1}),
+    ('one', 'dimensionless * 1', {}),          # a named unit equal to dimensionless
 ]
 ATOM_ID = {a[0]: i for i, a in enumerate(ATOMS)}
 
@@ -93,7 +102,8 @@ def expand(n):
 
 
 def vdims(v):
-    return tuple(sorted((g, x) for g, x in v.items() if g < 0))
+    """dimension part; radian (-8) is not a dimension: angles count as dimensionless for sums and function arguments"""
+    return tuple(sorted((g, x) for g, x in v.items() if g < 0 and g != -8))
 
 
 def vscale(v):
@@ -599,8 +609,10 @@ class Gen(object):
         r = rng.random()
         if r < 0.62:
             return rng.choice(LIT_EXPS)
-        if r < 0.74:
+        if r < 0.70:
             return self.qty(0, rng.choice([F(2), F(3), F(1, 2)]))
+        if r < 0.74:      # dimensionless with scale 1 under another name: the user unit `one`, radian
+            return self.qty(1 + ATOM_ID[rng.choice(['one', 'radian'])], rng.choice([F(2), F(3), F(1, 2)]))
         if r < 0.80:
             return [5, [0, 0, F(-1)], self.qty(0, F(2))]
         if r < 0.88:      # compound exponents (F6)
@@ -645,9 +657,19 @@ class Gen(object):
             val = exp_value(x)
             return [6, b, x], (npow(n, val) if val is not None else n)
         if r < 0.76:
-            if rng.random() < 0.85:
+            if rng.random() < 0.3:      # trig / hyperbolic function of an angle or another dimensionless-class leaf
+                us = [u for u in range(NU) if UDIMS[u] == ()]
+                return [7, rng.randrange(10, 22), self.leaf(rng.choice(us))], {}
+            if rng.random() < 0.8:
                 return [7, rng.choice(TRANS), self.like({}, d - 1, rng.random() < 0.6)], {}
-            return [7, rng.choice([40, 41, 42]), self.like({}, d - 1, rng.random() < 0.6), self.dimless(d - 1)], {}
+            f2, b2 = rng.choice([40, 41, 42]), self.dimless(d - 1)
+            if f2 == 42 and not any(x[0] == 3 for x in subtrees(b2)):
+                try:        # no Mod by a closed expression that is exactly zero (log(1/2 + 1/2)): SymPy raises on rebuild
+                    if bridge.eval_tree(b2, None) == 0:
+                        b2 = [0, 0, F(2)]
+                except Exception:
+                    b2 = [0, 0, F(2)]
+            return [7, f2, self.like({}, d - 1, rng.random() < 0.6), b2], {}
         if r < 0.86:
             a, n = self.any(d - 1)
             return [7, rng.choice([2, 2, 3, 4]), a], n
